@@ -33,10 +33,8 @@ def rule_read(R):
     cs = outq.calls_to(f, code, commit)
     ok = len(cs) == 1
     if ok:
-        t = code.operand_term(cs[0].args[1])
-        r, n = chain(t)
-        r = peel(r)
-        ok = isinstance(r, tuple) and r[0] == "await" and peel(r[1])[0] == "call" and peel(r[1])[1] == rd.bb and n == ["@Ok", "0"]
+        r = roles.ok_payload_source(code.operand_term(cs[0].args[1]))
+        ok = isinstance(r, tuple) and r[0] == "await" and peel(r[1])[0] == "call" and peel(r[1])[1] == rd.bb
     R.ob("read/commit-count", ok, "the count committed to the reader is exactly the count returned by this Read::read", where=cs[0].span if cs else fp.span)
     # buffer handed to read is the reader's receive window
     rb = roles.method(f, READER, "receive_buffer")
